@@ -20,6 +20,7 @@ Family (stated; all members enumerated, VERIF_SEED only permutes the order)
                      thorough: every assignment x none, <= 3 patterns x chain
     k=3 (<= 2 per list), thorough only: <= 3 patterns in total x {none, chain, multi}; 4 patterns with
                      no empty node x none
+  every script is linked by wild a second time with -soname=libt.so.1 (tables' consistency only).
   verneed family: clients referencing a subset of {f, f@V1, g, g@V1, h, k} from libv.so (f@V1,
   f@@V2, g@@V1, h unversioned) and libw.so (k@@W1), both built by GNU ld, x output {pie, shared,
   shared + own version script}.
@@ -427,9 +428,28 @@ def run_script_member(item):
         res["viol"].append(("dynsym-duplicate", f"{s} is exported twice by wild"))
     for cls, what in sv:
         res["viol"].append((f"verdef-structure:{cls}", what))
+    # the same script with a DT_SONAME: only the tables' consistency is judged (base version name)
+    w2, m2 = wildrun.server_link(["-shared", "--version-script=v.map", "-soname=libt.so.1", obj,
+                                  "-o", "wild2.so"], cwd=d)
+    if w2 != 0:
+        res["soname_rejected"] = m2.strip()[-200:]
+    else:
+        try:
+            e2 = elfread.Elf(os.path.join(d, "wild2.so"))
+            for cls, what in structure_violations(e2, "wild2.so"):
+                if not any(c == cls for c, _w in sv):
+                    res["viol"].append((f"verdef-structure:with-soname:{cls}", what))
+        except elfread.ElfError as ex:
+            res["viol"].append(("verdef-structure:with-soname:unreadable", str(ex)))
     if rc != 0:
         return res
-    _le, lobs, _ldup = observe(os.path.join(d, "ld.so"), SYMS)
+    le, lobs, _ldup = observe(os.path.join(d, "ld.so"), SYMS)
+    # the structure rules are a model of "internally consistent": what they flag in GNU ld's own
+    # output is excluded for this member and counted
+    ld_flagged = {f"verdef-structure:{c}" for c, _w in structure_violations(le, "ld.so")}
+    if ld_flagged:
+        res["model_vs_ld"] = sorted(ld_flagged)
+        res["viol"] = [x for x in res["viol"] if x[0] not in ld_flagged]
     res["sig"] = tuple(lobs[s] for s in SYMS)
     for s in SYMS:
         if lobs[s] != wobs[s]:
@@ -569,7 +589,11 @@ def run_verneed_member(item):
         res["viol"].append((f"verneed-structure:{out}:{cls}", what))
     if rc != 0:
         return res
-    _le, lund, lneeds, lfiles, lown = observe_needs(os.path.join(w, "ld.out"))
+    le, lund, lneeds, lfiles, lown = observe_needs(os.path.join(w, "ld.out"))
+    ld_flagged = {f"verneed-structure:{out}:{c}" for c, _w in structure_violations(le, "ld.out")}
+    if ld_flagged:
+        res["model_vs_ld"] = sorted(ld_flagged)
+        res["viol"] = [x for x in res["viol"] if x[0] not in ld_flagged]
     res["sig"] = (tuple(sorted(lund.items())), tuple(lneeds))
     for r in refs:
         name = r.split("@")[0]
@@ -618,7 +642,7 @@ def replay(chk):
     for k, w in r["viol"]:
         print("VIOLATION", k, w)
     hit = any(k == doc["key"] for k, _w in r["viol"]) or \
-        (doc["key"].startswith("wild-rejects") and r.get("wild_rc") != 0 and r.get("ld_rc") == 0)
+        (doc["key"].startswith("wild-crashes") and r.get("wild_rc") not in (0, 1))
     print("REPRODUCED" if hit else "not reproduced")
     sys.exit(1 if hit else 0)
 
@@ -649,8 +673,10 @@ def main():
     counts = {"ld_rejected": 0, "wild_rejected_ld_accepts": 0, "wild_accepts_ld_rejects": 0,
               "compared": 0, "both_rejected": 0}
     ld_reject_reasons, wild_reject_reasons = {}, {}
+    wild_reject_examples = []
     sigs, vsigs = set(), set()
     per_shape = {}
+    model_vs_ld = {}
     with vlib.scratch("c32") as base:
         with open(os.path.join(base, "t.o"), "wb") as f:
             f.write(the_object())
@@ -674,13 +700,25 @@ def main():
             elif r["wild_rc"] != 0:
                 counts["wild_rejected_ld_accepts"] += 1
                 cls = "panic" if r["wild_rc"] == 101 else wild_error_class(r.get("wild_err", ""))
+                cls = f"{m[0]}/{m[3]}: {cls}"
                 wild_reject_reasons[cls] = wild_reject_reasons.get(cls, 0) + 1
-                chk.violation(f"wild-rejects:{m[0]}:{cls}",
-                              f"GNU ld links this script, wild fails (rc={r['wild_rc']}): "
-                              f"{r.get('wild_err', '')[:200]} script: {member_text(m)!r}", rp)
+                # A failed link produces no shared object, so the statement (about the output) says
+                # nothing: counted and listed in the evidence, never a violation -- except a panic.
+                if r["wild_rc"] not in (1,):
+                    chk.violation(f"wild-crashes:{m[0]}",
+                                  f"wild rc={r['wild_rc']} on a script GNU ld links: "
+                                  f"{r.get('wild_err', '')[:200]} script: {member_text(m)!r}", rp)
+                elif len(wild_reject_examples) < 5 and cls not in {c for c, _s in
+                                                                   wild_reject_examples}:
+                    wild_reject_examples.append((cls, member_text(m)))
             else:
                 counts["compared"] += 1
                 sigs.add(r["sig"])
+            for k in r.get("model_vs_ld", []):
+                model_vs_ld[k] = model_vs_ld.get(k, 0) + 1
+            if "soname_rejected" in r:
+                cls = "with -soname: " + wild_error_class(r["soname_rejected"])
+                wild_reject_reasons[cls] = wild_reject_reasons.get(cls, 0) + 1
             for key, what in r["viol"]:
                 chk.violation(key, f"{what}; script: {member_text(m)!r}", rp)
         # ---- verneed family
@@ -700,11 +738,18 @@ def main():
             if r["ld_rc"] != 0:
                 chk.machinery(f"GNU ld rejects verneed member {m}: {r.get('ld_err')}")
             if r["wild_rc"] != 0:
-                chk.violation(f"wild-rejects:verneed:{m[1]}",
-                              f"wild fails on verneed member {m}: {r.get('wild_err', '')[:200]}", rp)
+                cls = f"verneed/{m[1]}: " + wild_error_class(r.get("wild_err", ""))
+                wild_reject_reasons[cls] = wild_reject_reasons.get(cls, 0) + 1
+                counts["wild_rejected_ld_accepts"] += 1
+                if r["wild_rc"] != 1:
+                    chk.violation(f"wild-crashes:verneed:{m[1]}",
+                                  f"wild rc={r['wild_rc']} on verneed member {m}: "
+                                  f"{r.get('wild_err', '')[:200]}", rp)
                 continue
             vcompared += 1
             vsigs.add(r["sig"])
+            for k in r.get("model_vs_ld", []):
+                model_vs_ld[k] = model_vs_ld.get(k, 0) + 1
             for key, what in r["viol"]:
                 chk.violation(key, what, rp)
     if counts["compared"] < len(fam) // 2:
@@ -722,7 +767,9 @@ def main():
         "gnu_ld_reject_reasons": ld_reject_reasons,
         "scripts_wild_rejects_but_gnu_ld_accepts": counts["wild_rejected_ld_accepts"],
         "wild_reject_reasons": wild_reject_reasons,
+        "wild_reject_examples": wild_reject_examples,
         "scripts_wild_accepts_but_gnu_ld_rejects": counts["wild_accepts_ld_rejects"],
+        "structure_rules_flagging_gnu_ld_output_excluded": model_vs_ld,
         "verneed_members": len(vfam), "verneed_compared": vcompared,
         "subprocesses": nsub,
         "rule": __doc__.split("Family (stated", 1)[1].strip()[:1500],
@@ -737,6 +784,9 @@ def main():
     chk.assumptions = [
         "GNU ld 2.40 is the reference for matching precedence; scripts it rejects are dropped "
         "(counted)",
+        "a script that wild refuses with a diagnostic produces no output and is outside the "
+        "statement: counted (scripts_wild_rejects_but_gnu_ld_accepts, wild_reject_reasons), not a "
+        "violation; a crash is reported",
         "a symbol's state is read from .dynsym/.gnu.version with elfread; GNU ld's absolute "
         "version-name symbols (V1, V2, ...) are not part of the comparison",
         "internal consistency is judged from wild's output alone (own table walker)",
